@@ -39,7 +39,7 @@ func pickSettings(r *Rng) *Settings {
 		Timeout: 2 * time.Second, Interval: interval, VerifCnt: 6}
 }
 
-func NewWorld(id string, seed uint64, mode string, stats *Stats) *World {
+func NewWorld(id string, seed uint64, mode string, stats *Stats, out *Out) *World {
 	r := NewRng(seed)
 	w := &World{r: r, set: pickSettings(r), stats: stats, mode: mode}
 	for i := 0; i < 5; i++ {
@@ -52,6 +52,7 @@ func NewWorld(id string, seed uint64, mode string, stats *Stats) *World {
 	}
 	univ = append(univ, "0xNotAWallet")
 	w.rec = NewCaseRec(id, w.host, univ)
+	w.rec.Mon = NewChainMonitor(w.set, out, id)
 	nh := 1 + r.Intn(2)
 	for i := 0; i < nh; i++ {
 		// helper i validates with wallet i+1; sometimes with the host's own key (identical genesis)
